@@ -378,6 +378,9 @@ func (tb *TB) allocValue(a *ssa.Alloc, u ssa.Value, env *Env) *Term {
 func (tb *TB) extract(x *ssa.Extract, env *Env) *Term {
 	switch tup := x.Tuple.(type) {
 	case *ssa.Call:
+		if t := tb.guardedComponent(x, tup, env); t != nil {
+			return t
+		}
 		ct := tb.call(tup, env)
 		if ct.Op == "tuple" && x.Index < len(ct.Args) {
 			return ct.Args[x.Index]
@@ -402,6 +405,131 @@ func (tb *TB) extract(x *ssa.Extract, env *Env) *Term {
 		return &Term{Op: fmt.Sprintf("res%d", x.Index), Args: []*Term{tb.Of(tup, env)}, Val: x}
 	}
 	return &Term{Op: fmt.Sprintf("res%d", x.Index), Args: []*Term{leaf(fmt.Sprintf("?%T", x.Tuple), x.Tuple)}, Val: x}
+}
+
+// guardedComponent: `v, ok := helper()` (or `v, err := helper()`) where the helper is inlinable, returns a
+// default on its not-ok paths, and every use of v sits under ok == true (err == nil): the term of v is
+// the term of the helper's ok-returns only. Returns nil when the pattern does not apply.
+func (tb *TB) guardedComponent(x *ssa.Extract, call *ssa.Call, env *Env) *Term {
+	ci := Callee(call)
+	fn := ci.Static
+	if fn == nil || ci.Closure != nil || !tb.IsRepo(fn) || len(fn.Blocks) == 0 || len(fn.Blocks) > tb.InlineMaxBlocks || tb.stack[fn] ||
+		(tb.NoInline != nil && tb.NoInline(fn)) {
+		return nil
+	}
+	res := fn.Signature.Results()
+	if res.Len() < 2 || x.Index >= res.Len() {
+		return nil
+	}
+	// the guard component: a bool or error result other than x's
+	gi := -1
+	isErr := false
+	for j := res.Len() - 1; j >= 0; j-- {
+		if j == x.Index {
+			continue
+		}
+		t := res.At(j).Type()
+		if b, ok := t.Underlying().(*types.Basic); ok && b.Kind() == types.Bool {
+			gi = j
+			break
+		}
+		if types.Identical(t, types.Universe.Lookup("error").Type()) {
+			gi, isErr = j, true
+			break
+		}
+	}
+	if gi < 0 {
+		return nil
+	}
+	var guard ssa.Value
+	if refs := call.Referrers(); refs != nil {
+		for _, r := range *refs {
+			if ex, ok := r.(*ssa.Extract); ok && ex.Index == gi {
+				guard = ex
+			}
+		}
+	}
+	if guard == nil {
+		return nil
+	}
+	var okRets []*ssa.Return
+	other := 0
+	for _, r := range Returns(fn) {
+		g := Resolve(r.Results[gi])
+		isOK := false
+		if isErr {
+			isOK = IsNilConst(g)
+		} else if b, known := ConstBool(g); known {
+			isOK = b
+		} else {
+			return nil // guard not decided per return
+		}
+		if isOK {
+			okRets = append(okRets, r)
+		} else {
+			other++
+		}
+	}
+	if len(okRets) == 0 || other == 0 {
+		return nil
+	}
+	holds := func(facts []Fact) bool {
+		for _, f := range facts {
+			if !isErr && f.Bool != nil && Resolve(f.Bool) == guard && f.Truth {
+				return true
+			}
+			if isErr && f.Op == token.EQL && ((Resolve(f.X) == guard && IsNilConst(f.Y)) || (Resolve(f.Y) == guard && IsNilConst(f.X))) {
+				return true
+			}
+		}
+		return false
+	}
+	refs := x.Referrers()
+	if refs == nil || len(*refs) == 0 {
+		return nil
+	}
+	for _, r := range *refs {
+		switch u := r.(type) {
+		case *ssa.DebugRef:
+			continue
+		case *ssa.Phi:
+			for k, e := range u.Edges {
+				if e != ssa.Value(x) {
+					continue
+				}
+				pred := u.Block().Preds[k]
+				fs := append([]Fact{}, BlockFacts(pred)...)
+				fs = append(fs, EdgeFacts(pred, succIndex(pred, u.Block()))...)
+				if !holds(fs) {
+					return nil
+				}
+			}
+		default:
+			if r.Block() == nil || !holds(BlockFacts(r.Block())) {
+				return nil
+			}
+		}
+	}
+	// build the term of the ok-returns with the helper's parameters bound
+	cc := call.Common()
+	var args []*Term
+	if cc.IsInvoke() {
+		return nil
+	}
+	args = tb.terms(cc.Args, env)
+	tb.stack[fn] = true
+	defer delete(tb.stack, fn)
+	ne := &Env{params: map[*ssa.Parameter]*Term{}}
+	for i, p := range fn.Params {
+		if i < len(args) {
+			ne.params[p] = args[i]
+		}
+	}
+	var ts []*Term
+	for _, r := range okRets {
+		ts = append(ts, tb.Of(r.Results[x.Index], ne))
+	}
+	return phiOf(x, ts)
 }
 
 // CallName returns a stable name for the callee of a call: "pkg.F", "(pkg.T).M",
